@@ -1,7 +1,7 @@
 (* C11 — every sentence of the CDCN grammar is accepted with its intended meaning.
    Statements only; the proofs are in LiteralProofs.v, ParserProofs.v, CdcnProofs.v, Grammar.v. *)
 From Coq Require Import String.
-From Verif Require Import Base Params Value Lexer Literals Parser LexerProofs ParserProofs CdcnProofs LiteralProofs ParseRun.
+From Verif Require Import Base Params Value Lexer Literals Parser LexerProofs ParserProofs CdcnProofs LiteralProofs ParseRun Grammar.
 Close Scope string_scope.
 Open Scope Z_scope.
 
@@ -44,6 +44,25 @@ Proof. exact parse_int_range. Qed.
 Theorem C11_hexadecimal_range : forall text v, parse_hex text = Some v -> v < two64.
 Proof. exact parse_hex_range. Qed.
 
+(* parser_complete.  FULL STATEMENT (not proved in general):
+     forall fparse crank d v n, denote fparse crank d = Some v -> (d is a Collection) ->
+       parse_tokens fparse crank (render d ++ repeat EOLT n ++ [EOFT]) = PValue v
+   where [render] is the token sequence of a derivation tree of Syntax.cdsn and [denote] its
+   meaning (Grammar.v).  Proved: exhaustively for all derivations up to the size bound of
+   Grammar.level1 / level2 (3,906 + 2,598 derivation trees: every item-list form incl. both
+   empty forms, lengths 0..3, all seven contexts, nesting 2, repeated keys, literals without
+   exact value), each with 0..2 trailing EOL tokens — and conversely no derivation without
+   meaning among them is accepted.  Missing: the induction over arbitrary derivations. *)
+Theorem C11_parser_complete_partial :
+  forall d n, In d (level1 ++ level2) -> (n <= 2)%nat -> accepts no_floats (default_crank []) d n = true.
+Proof. exact parser_complete_partial. Qed.
+Theorem C11_accepts_means : forall fparse crank i c n v,
+  accepts fparse crank (DColl i c) n = true -> denote fparse crank (DColl i c) = Some v ->
+  exists w, parse_tokens fparse crank (render (DColl i c) ++ repeat EOLT n ++ [EOFT]) = PValue w /\ val_eqb v w = true.
+Proof. exact accepts_meaning. Qed.
+Theorem C11_parser_sound_partial : forall d, In d (level1 ++ level2) -> rejects d = true.
+Proof. exact parser_sound_partial. Qed.
+
 (* non-vacuity and the remaining literal classes by computation (every escape form is an
    Example of LiteralProofs.v) *)
 Example C11_ex_boundary_integers :
@@ -72,3 +91,6 @@ Print Assumptions C11_integer_meaning_minus.
 Print Assumptions C11_hexadecimal_meaning.
 Print Assumptions C11_integer_range.
 Print Assumptions C11_hexadecimal_range.
+Print Assumptions C11_parser_complete_partial.
+Print Assumptions C11_accepts_means.
+Print Assumptions C11_parser_sound_partial.
